@@ -311,6 +311,9 @@ func (f *g2lFn) callExt(c *ast.CallExpr) (string, bool) {
 func (f *g2lFn) strConversion(to types.Type, arg ast.Expr, c *ast.CallExpr) (string, bool) {
 	from := f.typeOf(arg)
 	tk, fk := g2lKindOf(to), g2lKindOf(from)
+	if out, ok := f.bytesConversion(to, arg); ok { // go2lean_codec.go
+		return out, true
+	}
 	switch {
 	case tk == kString && (fk == kInt || fk == kUint):
 		if tv, ok := f.g.info.Types[c]; ok && tv.Value != nil {
@@ -433,6 +436,12 @@ func (f *g2lFn) sprintf(c *ast.CallExpr) string {
 			parts = append(parts, g2lPar(fn+g2lPar(f.expr(a))))
 			i += len(verb) - 1
 		default:
+			if p, n, ok := f.sprintfVerbExt(rest, next, c); ok { // go2lean_codec.go
+				flush()
+				parts = append(parts, g2lPar(p))
+				i += n
+				continue
+			}
 			f.fail("fmt.Sprintf: verb at `%s` of %s is outside the subset", rest, strconv.Quote(format))
 		}
 	}
